@@ -9,7 +9,7 @@ compared with the original messages.
 from __future__ import annotations
 
 from . import codec, reference, wire
-from .absint import AbsInt, AList, AObj, LenV, Opaque, SeqVar, Outcome
+from .absint import AbsInt, AList, AObj, LenV, Opaque, SeqVar, Outcome, _Brk, _Cont
 from .bits import AV, Sym
 from .model import AnalysisError, Unsupported
 from .wire import AFile, Field, StrSym, VLQ
@@ -449,7 +449,10 @@ def writer_step(ctx, ai, ev, running):
 
     def thunk():
         env = {loop.target.id: ev.build(ai, ctx), dn: AList([], 'bytearray'), rn: running, wt.params()[0]: AFile(name='out'), wt.params()[1]: AList([], 'MidiTrack')}
-        ai.ex_block(loop.body, env, wt.module)
+        try:
+            ai.ex_block(loop.body, env, wt.module)
+        except (_Cont, _Brk):
+            pass            # `continue` / `break` end this iteration
         return list(env[dn].items), env[rn]
     return wt, ai.explore(thunk, limit=16)
 
@@ -474,7 +477,10 @@ def reader_step(ctx, ai, items, last_status):
         env = {rt.params()[0]: f, ln: last_status, tn: AList([], 'MidiTrack'), 'start': 0, 'size': 10 ** 9, 'debug': False, 'clip': False, 'name': b'MTrk'}
         for p_, d_ in zip(rt.params()[1:], (False, False)):
             env[p_] = d_
-        ai.ex_block(loop.body, env, rt.module)
+        try:
+            ai.ex_block(loop.body, env, rt.module)
+        except (_Cont, _Brk):
+            pass
         return env[tn], env[ln], f
     return rt, ai.explore(thunk, limit=16)
 
